@@ -81,7 +81,8 @@ def rule_rewire(ctx):
         if isinstance(n, ast.Assign) and len(n.targets) == 1 and isinstance(n.targets[0], ast.Name):
             defs[n.targets[0].id] = n.value
     # fresh bonds
-    bname = next((k for k, v in defs.items() if isinstance(v, ast.ListComp) and "rand_uuid()" in src_of(v.elt) and "range(ng)" in src_of(v.generators[0].iter)), None)
+    bname = next((k for k, v in defs.items() if isinstance(v, ast.ListComp) and isinstance(v.elt, ast.Call) and (dotted(v.elt.func) or "").split(".")[-1] == "rand_uuid"
+                  and isinstance(v.generators[0].iter, ast.Call) and dotted(v.generators[0].iter.func) == "range"), None)
     if bname is None:
         r.bad(Finding("rewire-pairing", f.qualname, "fresh bond labels [rand_uuid() for _ in range(ng)] not found", where=where, operand="bonds"))
         return r
